@@ -1,11 +1,17 @@
 use crate::{Out, R};
 pub mod c01;
+pub mod c02;
+pub mod c12;
+pub mod c19;
 pub mod c18;
 
 pub fn run(prop: &str, rng: &mut R, out: &mut Out, extra: &[String]) -> bool {
     let _ = extra;
     match prop {
         "C01" => c01::run(rng, out),
+        "C02" => c02::run(rng, out),
+        "C12" => c12::run(rng, out),
+        "C19" => c19::run(rng, out),
         "C18" => c18::run(rng, out),
         _ => return false,
     }
